@@ -123,6 +123,10 @@ func (e *Engine) verifyFunctionIn(fc *FuncContract, inContext map[string]bool) *
 			c.unsupported("holds clause: " + h.Src)
 		}
 	}
+	for _, ul := range fc.UnderLock {
+		base := c.freshConst("owner", SInt)
+		s.locks = append(s.locks, LockHeld{Key: ul.Key, Base: base, Write: !ul.Read, Level: c.eng.contracts.lockLevels[ul.Key]})
+	}
 	fr.entry = s.snapshot()
 	if len(fc.Holds) > 0 {
 		s.atLock = fr.entry
@@ -260,7 +264,7 @@ func (c *Ctx) checkReturnFrame(rp retPath, fc *FuncContract, fn *ssa.Function, a
 		return
 	}
 	// locks must not leak out of a function unless its contract says so
-	if len(s.locks) > len(fc.Holds) && !fc.Goroutine {
+	if len(s.locks) > len(fc.Holds)+len(fc.UnderLock) && !fc.Goroutine {
 		var ks []string
 		for _, l := range s.locks {
 			ks = append(ks, l.Key)
